@@ -98,7 +98,22 @@ pub fn run(ctx: &Ctx, rep: &mut Report) {
                     rep.count("refused"); // an option landed where the grammar forbids a primary
                 }
             }
-            Cmp::Bad { kind, what, detail } => rep.violation(&format!("C13:{}", kind), &what, &case, detail),
+            Cmp::Bad { kind, what, detail } => {
+                if kind == "rejects-member" {
+                    // C13 is about *where* an option stands. If the same input with every option moved
+                    // to the front (and -true left in its place, which is what it means there) is
+                    // refused as well, the refusal is about the option's spelling or value: C05's
+                    // subject, counted here
+                    let is_opt = |c: &String| c.starts_with("-depth") || c.starts_with("-threads") || c.starts_with("-maxdepth") || c.starts_with("-mindepth");
+                    let mut front: Vec<String> = chunks.iter().filter(|c| is_opt(c)).cloned().collect();
+                    front.extend(chunks.iter().map(|c| if is_opt(c) { "-true".to_string() } else { c.clone() }));
+                    if let Ok(Err(_)) = crate::sut::parse_g(&front.join(" ")) {
+                        rep.count("refused_wherever_the_option_stands");
+                        return;
+                    }
+                }
+                rep.violation(&format!("C13:{}", kind), &what, &case, detail)
+            }
             Cmp::AgreeOk(want, opts, tree) => {
                 rep.count("accepted");
                 if has_global(&tree) {
